@@ -171,15 +171,33 @@ class Ctx:
 
 
 # --------------------------------------------------------------------------
+HYP_CHUNK = 3000
+
+
 def hyp_search(ctx: Ctx, strategy, run_case, max_examples, res: ShardResult = None, salt="",
                shrink_budget=None):
-    """Draw `max_examples` cases from `strategy`, run the oracle on each.
-    On the first failing case Hypothesis shrinks (bounded by shrink_budget further executions),
-    the smallest failing case seen is recorded in res.failures."""
+    """Draw `max_examples` cases from `strategy`, run the oracle on each.  Large budgets are split into rounds of
+    HYP_CHUNK examples, each a fresh Hypothesis run with its own derived seed (Hypothesis keeps a tree of everything
+    it has generated; unbounded runs get slower and larger the longer they last)."""
+    res = res if res is not None else ShardResult()
+    done = 0
+    rnd = 0
+    while done < max_examples:
+        n = min(HYP_CHUNK, max_examples - done)
+        _hyp_round(ctx, strategy, run_case, n, res, "%s#%d" % (salt, rnd), shrink_budget)
+        done += n
+        rnd += 1
+        if res.failures or res.harness_errors:
+            break
+    return res
+
+
+def _hyp_round(ctx: Ctx, strategy, run_case, max_examples, res: ShardResult, salt, shrink_budget):
+    """One Hypothesis run.  On the first failing case Hypothesis shrinks (bounded by shrink_budget further
+    executions); the smallest failing case seen is recorded in res.failures."""
     import hypothesis
     from hypothesis import HealthCheck, Phase, given, settings
 
-    res = res if res is not None else ShardResult()
     if shrink_budget is None:
         shrink_budget = 400 if ctx.tier == "quick" else 4000
     st = {"fail": None, "since": 0, "herr": None}
